@@ -31,6 +31,7 @@ type Prog struct {
 	errGlobals    map[string]int64 // "global.pkg.Name" -> code
 	globalWrites  map[string]bool  // globals stored to outside init
 	lemmas        []*Contract
+	findings      FindingsFile
 }
 
 func loadProg(repo string) (*Prog, error) {
